@@ -396,6 +396,11 @@ def run_case(case):
                                     "fixed"])) for _ in range(n)]
         elif fam == "scale":
             pats = ["two"] * n
+            if rng.random() < 0.25:
+                pats = ["width2"] * n
+            elif rng.random() < 0.3:
+                pats = [str(rng.choice(["two", "width2", "zero"]))
+                        for _ in range(n)]
         else:
             pats = [str(rng.choice(["two", "two", "fixed"]))
                     for _ in range(n)]
